@@ -19,7 +19,7 @@ use std::path::{Path, PathBuf};
 use vh_common::{Case, Rng, Run, alloc, brief, first_diff, hex, trap, unhex};
 use wow_mpq::patch::{PatchFile, apply_patch};
 use wow_mpq::verif_hooks::{trace_start, trace_take};
-use wow_mpq::{ArchiveBuilder, ListfileOption, PatchChain};
+use wow_mpq::{ArchiveBuilder, FormatVersion, ListfileOption, PatchChain};
 
 #[global_allocator]
 static A: alloc::Counting = alloc::Counting;
@@ -46,6 +46,19 @@ struct ArcSpec {
     path: PathBuf,
     /// literal name -> content
     files: Vec<(String, Vec<u8>)>,
+    /// MPQ format version the archive was built with (1..=4; 3 and 4 carry HET/BET tables)
+    version: u8,
+    /// per entry of `files`: stored encrypted
+    encrypted: Vec<bool>,
+}
+
+fn format_version(v: u8) -> FormatVersion {
+    match v {
+        2 => FormatVersion::V2,
+        3 => FormatVersion::V3,
+        4 => FormatVersion::V4,
+        _ => FormatVersion::V1,
+    }
 }
 
 struct Universe {
@@ -53,20 +66,37 @@ struct Universe {
     /// normalised key -> spellings to query
     keys: BTreeMap<String, Vec<String>>,
     absent: Vec<String>,
+    /// format versions / encryption of the archives (for class strings and descriptions)
+    tag: String,
 }
 
 impl Universe {
+    fn is_encrypted(&self, arc: usize, key: &str) -> bool {
+        self.arcs[arc].files.iter().position(|(n, _)| norm(n) == key).map(|j| self.arcs[arc].encrypted[j]).unwrap_or(false)
+    }
     fn content(&self, arc: usize, key: &str) -> Option<&Vec<u8>> {
         self.arcs[arc].files.iter().find(|(n, _)| norm(n) == key).map(|(_, d)| d)
     }
-    fn build(dir: &Path, tag: &str, specs: Vec<Vec<(String, Vec<u8>)>>, absent: &[&str]) -> Result<Universe, String> {
+    /// `versions[i % len]` = format version of archive i (library-built); `encrypted`: every second entry of an archive is
+    /// stored encrypted by the builder (alternately with the plain and the position-dependent FIX_KEY key, zlib / stored),
+    /// so that the chain's reads go through the key derivation of the archive reader.
+    fn build(dir: &Path, tag: &str, specs: Vec<Vec<(String, Vec<u8>)>>, absent: &[&str], versions: &[u8], encrypted: bool) -> Result<Universe, String> {
         let mut arcs = vec![];
         let mut keys: BTreeMap<String, Vec<String>> = BTreeMap::new();
         for (i, files) in specs.into_iter().enumerate() {
             let path = dir.join(format!("{tag}{i}.mpq"));
+            let version = versions[i % versions.len()];
             let mut b = ArchiveBuilder::new().listfile_option(ListfileOption::Generate);
-            for (n, d) in &files {
-                b = b.add_file_data(d.clone(), n);
+            if version != 1 {
+                b = b.version(format_version(version));
+            }
+            let enc_flags: Vec<bool> = (0..files.len()).map(|j| encrypted && (i + j) % 2 == 0).collect();
+            for (j, (n, d)) in files.iter().enumerate() {
+                b = if enc_flags[j] {
+                    b.add_file_data_with_encryption(d.clone(), n, if (i + j) % 3 == 0 { 0 } else { 0x02 }, (i + j) % 4 == 0, 0)
+                } else {
+                    b.add_file_data(d.clone(), n)
+                };
                 let k = norm(n);
                 let e = keys.entry(k).or_default();
                 for sp in [n.clone(), n.to_ascii_uppercase(), n.to_ascii_lowercase(), n.replace('\\', "/")] {
@@ -76,9 +106,9 @@ impl Universe {
                 }
             }
             b.build(&path).map_err(|e| format!("ArchiveBuilder failed for {tag}{i}: {e}"))?;
-            arcs.push(ArcSpec { path, files });
+            arcs.push(ArcSpec { path, files, version, encrypted: enc_flags });
         }
-        Ok(Universe { arcs, keys, absent: absent.iter().map(|s| s.to_string()).collect() })
+        Ok(Universe { arcs, keys, absent: absent.iter().map(|s| s.to_string()).collect(), tag: format!("v{}{}", versions.iter().map(|v| v.to_string()).collect::<String>(), if encrypted { "+enc" } else { "" }) })
     }
 }
 
@@ -92,7 +122,20 @@ fn content_for(arc: usize, name: &str) -> Vec<u8> {
     v
 }
 
-fn four_archives(dir: &Path) -> Result<Universe, String> {
+/// The version / encryption configurations of the four-archive universe: the first is the builder's default (all V1, nothing
+/// encrypted); the others mix V1..V4 (V3/V4 = HET/BET tables: Archive::list and find_file take another path there) and
+/// store every second entry encrypted.
+const UNIVERSES: [([u8; 4], bool); 4] = [([1, 1, 1, 1], false), ([2, 3, 4, 1], true), ([4, 4, 3, 3], false), ([3, 2, 1, 4], true)];
+
+fn universe_of(idx: u64) -> usize {
+    // a fixed function of the case index, unrelated to the digits of the history encoding
+    let mut z = idx.wrapping_add(0x9E37_79B9_7F4A_7C15);
+    z = (z ^ (z >> 30)).wrapping_mul(0xBF58_476D_1CE4_E5B9);
+    z = (z ^ (z >> 27)).wrapping_mul(0x94D0_49BB_1331_11EB);
+    ((z ^ (z >> 31)) % UNIVERSES.len() as u64) as usize
+}
+
+fn four_archives(dir: &Path, k: usize) -> Result<Universe, String> {
     // overlapping and disjoint names, case variants and (at query time) slash variants
     let names: [&[&str]; 4] = [
         &["common.txt", "Data\\Shared.bin", "only0.txt", "dir\\File.TXT", "pair01.dat"],
@@ -101,12 +144,14 @@ fn four_archives(dir: &Path) -> Result<Universe, String> {
         &["common.txt", "only3.txt", "dir\\file.txt", "pair23.dat", "Straße\\größe.txt"],
     ];
     let specs = names.iter().enumerate().map(|(i, ns)| ns.iter().map(|n| (n.to_string(), content_for(i, n))).collect()).collect();
-    Universe::build(dir, "a", specs, &["nosuch.txt", "common.tx", "only4.txt", "Data\\Shared.bi", "dir\\", "ommon.txt"])
+    let (versions, enc) = UNIVERSES[k];
+    Universe::build(dir, &format!("a{k}-"), specs, &["nosuch.txt", "common.tx", "only4.txt", "Data\\Shared.bi", "dir\\", "ommon.txt"], &versions, enc)
 }
 
 fn many_tied_archives(dir: &Path, n: usize) -> Result<Universe, String> {
     let specs = (0..n).map(|i| vec![("common.txt".to_string(), content_for(i, "common.txt")), (format!("u{i}.txt"), content_for(i, "u"))]).collect();
-    Universe::build(dir, "t", specs, &["u9999.txt"])
+    // formats cycle through V1..V4 along the archives
+    Universe::build(dir, "t", specs, &["u9999.txt"], &[1, 2, 3, 4], false)
 }
 
 #[derive(Clone, Debug)]
@@ -208,14 +253,27 @@ fn kinds_set(ops: &[Op]) -> String {
 /// Compare every observable of the chain with the model. `ctx` = semantic context for signatures (op kinds / api).
 fn compare_all(c: &mut Case, chain: &mut PatchChain, model: &Model, uni: &Universe, ctx: &str, step: &Value) {
     let path_of = |a: usize| uni.arcs[a].path.as_path();
+    c.count(&format!("comparisons_on_archives|{}", uni.tag), 1);
+    // what read_file answered per queried name (None = error), for the batch entry point below
+    let mut single: Vec<(&str, Option<Vec<u8>>)> = Vec::new();
     for (key, spellings) in &uni.keys {
         let (allowed, tie) = model.allowed(uni, key);
         let tie_s = if tie { "tie" } else { "no-tie" };
         for sp in spellings {
             c.count("lookups_compared", 1);
-            match trap(|| chain.read_file(sp)) {
+            let rd = trap(|| chain.read_file(sp));
+            if let Ok(r) = &rd {
+                single.push((sp.as_str(), r.as_ref().ok().cloned()));
+            }
+            match rd {
                 Err(p) => c.violate(format!("chain-read|panic|{}|{ctx}", p.func), format!("read_file({sp:?}) panicked: {}", p.msg), json!({"at": step})),
                 Ok(Ok(bytes)) => {
+                    if let Some(w) = allowed.iter().find(|a| uni.content(**a, key) == Some(&bytes)) {
+                        c.count(&format!("reads_won_by_archive_format|v{}", uni.arcs[*w].version), 1);
+                        if uni.is_encrypted(*w, key) {
+                            c.count("reads_won_by_encrypted_entry", 1);
+                        }
+                    }
                     if allowed.is_empty() {
                         c.violate(format!("chain-read|found-but-in-no-archive|{ctx}"), format!("read_file({sp:?}) returned {} bytes although no archive of the chain contains the name", bytes.len()),
                                   json!({"at": step, "model": model.shape(), "got": brief(&bytes)}));
@@ -258,10 +316,15 @@ fn compare_all(c: &mut Case, chain: &mut PatchChain, model: &Model, uni: &Univer
     for sp in &uni.absent {
         c.count("absent_lookups_compared", 1);
         let r = trap(|| chain.read_file(sp));
+        if let Ok(r) = &r {
+            single.push((sp.as_str(), r.as_ref().ok().cloned()));
+        }
         if matches!(r, Ok(Ok(_))) || r.is_err() || chain.contains_file(sp) || chain.find_file_archive(sp).is_some() {
             c.violate(format!("chain-read|found-but-in-no-archive|{ctx}"), format!("the name {sp:?} is in no archive but the chain finds it (or panics)"), json!({"at": step, "model": model.shape()}));
         }
     }
+    // the batch entry point: one slot per requested name, in request order, each equal to what read_file gives
+    check_extract_files(c, chain, &single, ctx, step);
     // list(): as a set of normalised names == union over the model's archives (specials aside); every listed literal name exists in some chain archive
     c.count("lists_compared", 1);
     let mut want: BTreeSet<String> = BTreeSet::new();
@@ -299,6 +362,85 @@ fn compare_all(c: &mut Case, chain: &mut PatchChain, model: &Model, uni: &Univer
         let got = chain.get_priority(path_of(a));
         if got != want {
             c.violate(format!("chain-get-priority|{ctx}"), format!("get_priority(A{a}) = {got:?}, model {want:?} ({})", model.shape()), json!({"at": step}));
+        }
+        // get_archive: Some exactly for the members, and it is the archive opened from that path
+        c.count("get_archive_compared", 1);
+        match chain.get_archive(path_of(a)) {
+            None if want.is_some() => c.violate(format!("chain-get-archive|none-for-member|{ctx}"), format!("get_archive(A{a}) = None although the archive is in the chain ({})", model.shape()), json!({"at": step})),
+            Some(_) if want.is_none() => c.violate(format!("chain-get-archive|some-for-non-member|{ctx}"), format!("get_archive(A{a}) = Some although the archive is not in the chain ({})", model.shape()), json!({"at": step})),
+            Some(ar) if ar.path() != path_of(a) => c.violate(format!("chain-get-archive|other-archive|{ctx}"), format!("get_archive(A{a}) returned the archive opened from {}", ar.path().display()), json!({"at": step})),
+            _ => {}
+        }
+    }
+    c.count("get_archive_compared", 1);
+    if chain.get_archive(uni.arcs[0].path.with_extension("never-added")).is_some() {
+        c.violate(format!("chain-get-archive|some-for-non-member|{ctx}"), "get_archive of a path that was never added returned an archive".to_string(), json!({"at": step}));
+    }
+    // get_chain_info: one record per archive of the chain, with its priority, highest priority first; among archives of
+    // equal priority whose priority was given by an add, the earlier added stands first (the order lookups are decided by)
+    c.count("chain_infos_compared", 1);
+    match trap(|| chain.get_chain_info()) {
+        Err(p) => c.violate(format!("chain-info|panic|{}|{ctx}", p.func), format!("get_chain_info() panicked: {}", p.msg), json!({"at": step})),
+        Ok(infos) => {
+            c.count("chain_info_records_compared", infos.len() as u64);
+            let got: Vec<(Option<usize>, i32)> = infos.iter().map(|i| ((0..uni.arcs.len()).find(|a| path_of(*a) == i.path.as_path()), i.priority)).collect();
+            let show = got.iter().map(|(a, p)| format!("{}@{p}", a.map(|a| format!("A{a}")).unwrap_or("?".into()))).collect::<Vec<_>>().join(",");
+            let mut gs: Vec<(Option<usize>, i32)> = got.clone();
+            gs.sort();
+            let mut ws: Vec<(Option<usize>, i32)> = model.entries.iter().map(|e| (Some(e.arc), e.prio)).collect();
+            ws.sort();
+            if gs != ws {
+                c.violate(format!("chain-info|members|{ctx}"), format!("get_chain_info() = [{show}] but the chain consists of [{}]", model.shape()), json!({"at": step, "model": model.shape()}));
+            } else if got.windows(2).any(|w| w[0].1 < w[1].1) {
+                c.violate(format!("chain-info|order|no-tie|{ctx}"), format!("get_chain_info() = [{show}] is not ordered by descending priority"), json!({"at": step, "model": model.shape()}));
+            } else {
+                let seq_of = |a: Option<usize>| model.entries.iter().find(|e| Some(e.arc) == a).map(|e| (e.seq, e.by_set));
+                for i in 0..got.len() {
+                    for j in i + 1..got.len() {
+                        if got[i].1 == got[j].1 {
+                            if let (Some((si, bi)), Some((sj, bj))) = (seq_of(got[i].0), seq_of(got[j].0)) {
+                                if !bi && !bj && si > sj {
+                                    c.violate(format!("chain-info|order|tie|{ctx}"), format!("get_chain_info() = [{show}]: among archives of equal priority the later added one stands first ({})", model.shape()), json!({"at": step, "model": model.shape()}));
+                                }
+                            }
+                        }
+                    }
+                }
+            }
+            for i in &infos {
+                if let Some(a) = (0..uni.arcs.len()).find(|a| path_of(*a) == i.path.as_path()) {
+                    c.count(&format!("chain_info_format|built=v{}|reported={:?}", uni.arcs[a].version, i.format_version), 1);
+                }
+            }
+        }
+    }
+}
+
+/// `PatchChain::extract_files` against the single reads made just before on the same chain.
+fn check_extract_files(c: &mut Case, chain: &mut PatchChain, single: &[(&str, Option<Vec<u8>>)], ctx: &str, step: &Value) {
+    let names: Vec<&str> = single.iter().map(|(n, _)| *n).collect();
+    c.count("extract_files_calls", 1);
+    match trap(|| chain.extract_files(&names)) {
+        Err(p) => c.violate(format!("chain-extract-files|panic|{}|{ctx}", p.func), format!("extract_files panicked: {}", p.msg), json!({"at": step})),
+        Ok(slots) => {
+            if slots.len() != names.len() {
+                c.violate(format!("chain-extract-files|slot-count|{ctx}"), format!("extract_files of {} names returned {} slots", names.len(), slots.len()), json!({"at": step}));
+                return;
+            }
+            for ((want_name, want), (name, got)) in single.iter().zip(slots.iter()) {
+                c.count("extract_files_slots_compared", 1);
+                if name != want_name {
+                    c.violate(format!("chain-extract-files|slot-order|{ctx}"), format!("extract_files: the slot for {want_name:?} carries the name {name:?}"), json!({"at": step}));
+                    return;
+                }
+                match (want, got) {
+                    (Some(a), Ok(b)) if a == b => c.count("extract_files_slots_ok_equal", 1),
+                    (None, Err(_)) => c.count("extract_files_slots_err_equal", 1),
+                    (Some(_), Ok(_)) => c.violate(format!("chain-extract-files|other-bytes-than-read_file|{ctx}"), format!("extract_files: the slot for {name:?} differs from what read_file returns"), json!({"at": step})),
+                    (Some(_), Err(e)) => c.violate(format!("chain-extract-files|error-where-read_file-succeeds|{ctx}"), format!("extract_files: the slot for {name:?} is an error ({e}) although read_file succeeds"), json!({"at": step})),
+                    (None, Ok(b)) => c.violate(format!("chain-extract-files|bytes-where-read_file-fails|{ctx}"), format!("extract_files: the slot for {name:?} holds {} bytes although read_file fails", b.len()), json!({"at": step})),
+                }
+            }
         }
     }
 }
@@ -633,9 +775,9 @@ fn run_unlinked_case(c: &mut Case, uni: &Universe, dir: &Path, idx: u64, perm: &
             c.inconclusive("could not copy a fixture archive");
             return;
         }
-        arcs.push(ArcSpec { path: pth, files: spec.files.clone() });
+        arcs.push(ArcSpec { path: pth, files: spec.files.clone(), version: spec.version, encrypted: spec.encrypted.clone() });
     }
-    let u2 = Universe { arcs, keys: uni.keys.clone(), absent: uni.absent.clone() };
+    let u2 = Universe { arcs, keys: uni.keys.clone(), absent: uni.absent.clone(), tag: uni.tag.clone() };
     let mut chain = PatchChain::new();
     let mut model = Model::default();
     for a in perm {
@@ -751,13 +893,16 @@ fn random_history(rng: &mut Rng, len: usize) -> Vec<Op> {
 fn mode_chain(run: &mut Run) {
     let thorough = run.args.thorough();
     let dir = PathBuf::from(&run.args.scratch);
-    let uni = match four_archives(&dir) {
-        Ok(u) => u,
-        Err(e) => {
-            eprintln!("c08: cannot build the archive universe: {e}");
-            std::process::exit(2);
+    let mut unis: Vec<Universe> = vec![];
+    for k in 0..UNIVERSES.len() {
+        match four_archives(&dir, k) {
+            Ok(u) => unis.push(u),
+            Err(e) => {
+                eprintln!("c08: cannot build the archive universe {k}: {e}");
+                std::process::exit(2);
+            }
         }
-    };
+    }
     let mut shapes: BTreeSet<String> = BTreeSet::new();
     // ---- all histories of length <= 3
     for idx in 0..H3_END {
@@ -765,9 +910,10 @@ fn mode_chain(run: &mut Run) {
             continue;
         }
         let ops = history_from_index(idx);
-        let class = format!("H|{}", ops.iter().map(op_kind).collect::<Vec<_>>().join(","));
-        let desc = json!({"history": ops.iter().map(op_json).collect::<Vec<_>>()});
-        run.case(idx, &class, desc, |c| run_history(c, &uni, &ops, &mut shapes));
+        let uni = &unis[universe_of(idx)];
+        let class = format!("H|{}|{}", ops.iter().map(op_kind).collect::<Vec<_>>().join(","), uni.tag);
+        let desc = json!({"history": ops.iter().map(op_json).collect::<Vec<_>>(), "archives": uni.tag});
+        run.case(idx, &class, desc, |c| run_history(c, uni, &ops, &mut shapes));
     }
     // ---- insertion orders x priority assignments x construction api
     let perms = permutations(4);
@@ -782,9 +928,10 @@ fn mode_chain(run: &mut Run) {
                     let inputs: Vec<(usize, i32)> = perm.iter().map(|a| (*a, asg[*a])).collect();
                     let prefix = (pi + ai) % 3;
                     let seeds = [0u64, 1 + idx * 3 + run.args.seed * 1000, 2 + idx * 7 + run.args.seed * 1000];
-                    let class = format!("P|{api}|order={}|prio={:?}", perm.iter().map(|x| x.to_string()).collect::<String>(), asg);
-                    let desc = json!({"api": api, "inputs": inputs.iter().map(|(a, p)| format!("A{a}@{p}")).collect::<Vec<_>>(), "sequential_prefix": if api == "add_archives_parallel" { prefix } else { 0 }});
-                    run.case(idx, &class, desc, |c| run_parallel_case(c, &uni, &inputs, api, prefix, if api == "sequential" { &seeds[..1] } else { &seeds[..] }, &mut st));
+                    let uni = &unis[universe_of(idx)];
+                    let class = format!("P|{api}|order={}|prio={:?}|{}", perm.iter().map(|x| x.to_string()).collect::<String>(), asg, uni.tag);
+                    let desc = json!({"api": api, "inputs": inputs.iter().map(|(a, p)| format!("A{a}@{p}")).collect::<Vec<_>>(), "sequential_prefix": if api == "add_archives_parallel" { prefix } else { 0 }, "archives": uni.tag});
+                    run.case(idx, &class, desc, |c| run_parallel_case(c, uni, &inputs, api, prefix, if api == "sequential" { &seeds[..1] } else { &seeds[..] }, &mut st));
                 }
                 idx += 1;
             }
@@ -840,9 +987,10 @@ fn mode_chain(run: &mut Run) {
                 ops = (0..4).map(|_| op_from_letter(rng.usize(ALPHABET))).collect();
                 tries += 1;
             }
-            let class = format!("H|{}", ops.iter().map(op_kind).collect::<Vec<_>>().join(","));
-            let desc = json!({"history": ops.iter().map(op_json).collect::<Vec<_>>()});
-            run.case(i, &class, desc, |c| run_history(c, &uni, &ops, &mut shapes));
+            let uni = &unis[universe_of(i)];
+            let class = format!("H|{}|{}", ops.iter().map(op_kind).collect::<Vec<_>>().join(","), uni.tag);
+            let desc = json!({"history": ops.iter().map(op_json).collect::<Vec<_>>(), "archives": uni.tag});
+            run.case(i, &class, desc, |c| run_history(c, uni, &ops, &mut shapes));
         }
         idx += 60_000;
         for k in 0..n12 {
@@ -852,9 +1000,10 @@ fn mode_chain(run: &mut Run) {
             }
             let mut rng = run.rng(i, 0);
             let ops = random_history(&mut rng, 12);
-            let class = format!("H12|{}", ops.iter().map(|o| &op_kind(o)[..1]).collect::<String>());
-            let desc = json!({"history": ops.iter().map(op_json).collect::<Vec<_>>()});
-            run.case(i, &class, desc, |c| run_history(c, &uni, &ops, &mut shapes));
+            let uni = &unis[universe_of(i)];
+            let class = format!("H12|{}|{}", ops.iter().map(|o| &op_kind(o)[..1]).collect::<String>(), uni.tag);
+            let desc = json!({"history": ops.iter().map(op_json).collect::<Vec<_>>(), "archives": uni.tag});
+            run.case(i, &class, desc, |c| run_history(c, uni, &ops, &mut shapes));
         }
     }
     idx += 500;
@@ -880,9 +1029,10 @@ fn mode_chain(run: &mut Run) {
                         }
                         let asg = assigns[(pi * 7 + bi * 3 + pos) % assigns.len()];
                         let prefix = (pi + pos) % 3;
-                        let class = format!("F|{api}|bad={bkind}|pos={pos}|prefix={prefix}|order={}", perm.iter().map(|x| x.to_string()).collect::<String>());
-                        let desc = json!({"api": api, "bad_input": bkind, "bad_position_in_batch": pos, "sequential_prefix": prefix, "order": perm, "priorities": asg});
-                        run.case(i, &class, desc, |c| run_failed_load_case(c, &uni, perm, &asg, api, prefix, pos, bkind, bpath));
+                        let uni = &unis[universe_of(i)];
+                        let class = format!("F|{api}|bad={bkind}|pos={pos}|prefix={prefix}|order={}|{}", perm.iter().map(|x| x.to_string()).collect::<String>(), uni.tag);
+                        let desc = json!({"api": api, "bad_input": bkind, "bad_position_in_batch": pos, "sequential_prefix": prefix, "order": perm, "priorities": asg, "archives": uni.tag});
+                        run.case(i, &class, desc, |c| run_failed_load_case(c, uni, perm, &asg, api, prefix, pos, bkind, bpath));
                     }
                 }
             }
@@ -902,9 +1052,10 @@ fn mode_chain(run: &mut Run) {
                     }
                     let asg = assigns[(pi * 5 + victim) % assigns.len()];
                     let newprio = PRIOS[(pi + victim) % 3];
-                    let class = format!("U|{how}|victim={victim}|order={}|newprio={newprio}", perm.iter().map(|x| x.to_string()).collect::<String>());
-                    let desc = json!({"what": format!("archive file {how} after add_archive, then set_priority / remove_archive of others"), "victim": victim, "order": perm, "priorities": asg, "new_priority": newprio});
-                    run.case(i, &class, desc, |c| run_unlinked_case(c, &uni, &dir, i, perm, &asg, victim, how, newprio));
+                    let uni = &unis[universe_of(i)];
+                    let class = format!("U|{how}|victim={victim}|order={}|newprio={newprio}|{}", perm.iter().map(|x| x.to_string()).collect::<String>(), uni.tag);
+                    let desc = json!({"what": format!("archive file {how} after add_archive, then set_priority / remove_archive of others"), "victim": victim, "order": perm, "priorities": asg, "new_priority": newprio, "archives": uni.tag});
+                    run.case(i, &class, desc, |c| run_unlinked_case(c, uni, &dir, i, perm, &asg, victim, how, newprio));
                 }
             }
         }
@@ -1154,6 +1305,25 @@ fn history_case(c: &mut Case, m: &Value) {
                 seen.push(e.clone());
             }
         }
+        // the batch entry point, slot by slot what read_file gives on the chain as it is now
+        {
+            let mut names: Vec<&str> = m["lookups"].as_array().map(|v| v.iter().filter_map(|x| x.as_str()).collect()).unwrap_or_default();
+            let on = jstr(m, "other_name");
+            if !on.is_empty() {
+                names.push(on);
+            }
+            let mut single: Vec<(&str, Option<Vec<u8>>)> = Vec::new();
+            let mut panicked = false;
+            for n in &names {
+                match trap(|| chain.read_file(n)) {
+                    Ok(r) => single.push((n, r.ok())),
+                    Err(_) => panicked = true,
+                }
+            }
+            if !panicked {
+                check_extract_files(c, &mut chain, &single, &format!("patch-history|after={op}"), &detail);
+            }
+        }
         // contains / find_file_archive agree with the membership
         c.count("patch_history_contains", 1);
         if chain.contains_file(&name) == (kind == "absent") {
@@ -1181,7 +1351,43 @@ fn chain_case(c: &mut Case, m: &Value) {
     let name = jstr(m, "name").to_string();
     let variant = jstr(m, "variant").to_string();
     let api = jstr(m, "api").to_string();
-    let arcs: Vec<(PathBuf, i32)> = m["archives"].as_array().map(|v| v.iter().map(|a| (PathBuf::from(jstr(a, "path")), a["prio"].as_i64().unwrap_or(0) as i32)).collect()).unwrap_or_default();
+    let mut arcs: Vec<(PathBuf, i32)> = m["archives"].as_array().map(|v| v.iter().map(|a| (PathBuf::from(jstr(a, "path")), a["prio"].as_i64().unwrap_or(0) as i32)).collect()).unwrap_or_default();
+    // a base archive the library builds itself (encrypted base entry; format version axis): written next to the group's
+    // other archives under a name of this case's own
+    if m["lib_base"].is_object() && !arcs.is_empty() {
+        let lb = &m["lib_base"];
+        let version = lb["version"].as_u64().unwrap_or(1) as u8;
+        let path = PathBuf::from(format!("{}.case{}", arcs[0].0.display(), m["idx"].as_u64().unwrap_or(0)));
+        let mut b = ArchiveBuilder::new().listfile_option(ListfileOption::Generate);
+        if version != 1 {
+            b = b.version(format_version(version));
+        }
+        for f in lb["files"].as_array().map(|v| v.as_slice()).unwrap_or(&[]) {
+            let data = unhex(jstr(f, "data"));
+            b = if f["encrypt"].as_bool().unwrap_or(false) {
+                b.add_file_data_with_encryption(data, jstr(f, "name"), if f["zlib"].as_bool().unwrap_or(false) { 0x02 } else { 0 }, f["fix_key"].as_bool().unwrap_or(false), 0)
+            } else {
+                b.add_file_data(data, jstr(f, "name"))
+            };
+        }
+        if let Err(e) = b.build(&path) {
+            c.inconclusive(&format!("ArchiveBuilder could not write the encrypted base archive: {e}"));
+            return;
+        }
+        c.count(&format!("library_built_encrypted_bases|v{version}"), 1);
+        arcs[0].0 = path;
+    }
+    if let Some(k) = m["enc_base"].as_str() {
+        c.count(&format!("chains_with_encrypted_base|{k}|fix_key={}", m["enc_base_fix_key"].as_bool().unwrap_or(false)), 1);
+        for l in m["enc_patches"].as_array().map(|v| v.as_slice()).unwrap_or(&[]) {
+            let l = l.as_str().unwrap_or("");
+            if l.starts_with("plain-") {
+                c.count("patch_entries_left_unencrypted_in_enc_chains", 1);
+            } else {
+                c.count(&format!("encrypted_patch_entries|{l}|fix_key={}", m["enc_patch_fix_key"].as_bool().unwrap_or(false)), 1);
+            }
+        }
+    }
     let order: Vec<usize> = m["add_order"].as_array().map(|v| v.iter().map(|x| x.as_u64().unwrap_or(0) as usize).collect()).unwrap_or_default();
     let inputs: Vec<(PathBuf, i32)> = order.iter().filter_map(|i| arcs.get(*i).cloned()).collect();
     let built = trap(|| -> wow_mpq::Result<PatchChain> {
@@ -1257,6 +1463,15 @@ fn chain_case(c: &mut Case, m: &Value) {
                 let sig = match variant.as_str() {
                     "full-on-top" => "chain-patch|regular-file-on-top-not-returned".to_string(),
                     "full-between" => "patch-wellformed-rejected|chain|full-copy-between-patches".to_string(),
+                    "wellformed-enc" => {
+                        // which encrypted shape the chain carries: the storage of the encrypted patch entries, else the encrypted base
+                        let lay: BTreeSet<&str> = m["enc_patches"].as_array().map(|v| v.iter().filter_map(|x| x.as_str()).filter(|l| !l.starts_with("plain-")).collect()).unwrap_or_default();
+                        if lay.is_empty() {
+                            format!("patch-wellformed-rejected|chain|encrypted-base|{}", jstr(m, "enc_base"))
+                        } else {
+                            format!("patch-wellformed-rejected|chain|encrypted-patch-entry|{}", if lay.contains("zlib-sectors") { "sectored" } else { "single-unit" })
+                        }
+                    }
                     _ => format!("patch-wellformed-rejected|chain|{}", if negnz { "bsd0-neg-seek-to-nonzero" } else { "plain" }),
                 };
                 c.count(&format!("chain_wellformed_rejected|{variant}"), 1);
@@ -1292,6 +1507,43 @@ fn chain_case(c: &mut Case, m: &Value) {
         c.count("chain_patch_find_archive", 1);
         if chain.find_file_archive(&name) != Some(Path::new(top)) {
             c.violate("chain-find-archive|wrong-archive|patch-entry".to_string(), format!("find_file_archive({name:?}) = {:?}, expected {top}", chain.find_file_archive(&name)), detail.clone());
+        }
+    }
+    // the batch entry point over the same names (+ the regular neighbours and a name no archive holds): slot by slot what read_file gives
+    {
+        let mut names: Vec<&str> = m["lookups"].as_array().map(|v| v.iter().filter_map(|x| x.as_str()).collect()).unwrap_or_default();
+        names.extend(m["others"].as_array().map(|v| v.iter().map(|o| jstr(o, "name")).collect::<Vec<_>>()).unwrap_or_default());
+        names.push("No\\Such\\File.bin");
+        let mut single: Vec<(&str, Option<Vec<u8>>)> = Vec::new();
+        let mut panicked = false;
+        for n in &names {
+            match trap(|| chain.read_file(n)) {
+                Ok(r) => single.push((n, r.ok())),
+                Err(_) => panicked = true, // reported by the read loop above
+            }
+        }
+        if !panicked {
+            check_extract_files(c, &mut chain, &single, &format!("patch-entry|{}", if expect_kind == "equal" { "wellformed" } else { "damaged" }), &json!({"variant": variant, "archives": m["archives"], "add_order": m["add_order"], "api": api}));
+        }
+    }
+    // get_chain_info / get_archive on reference-written archives: the members with their priorities, highest first
+    {
+        c.count("chain_patch_infos_compared", 1);
+        let infos = chain.get_chain_info();
+        let got: Vec<(PathBuf, i32)> = infos.iter().map(|i| (i.path.clone(), i.priority)).collect();
+        let mut want: Vec<(PathBuf, i32)> = inputs.clone();
+        want.sort_by(|a, b| b.1.cmp(&a.1));       // priorities within a case are distinct
+        if got != want {
+            let (mut gs, mut ws) = (got.clone(), want.clone());
+            gs.sort();
+            ws.sort();
+            c.violate(format!("chain-info|{}|patch-entry", if gs != ws { "members" } else { "order" }), format!("get_chain_info() = {:?}, expected {:?}", got, want), detail.clone());
+        }
+        for (p, _) in &inputs {
+            c.count("chain_patch_get_archive", 1);
+            if chain.get_archive(p).map(|a| a.path() != p.as_path()).unwrap_or(true) {
+                c.violate("chain-get-archive|none-for-member|patch-entry".to_string(), format!("get_archive({}) does not return the archive", p.display()), detail.clone());
+            }
         }
     }
     for o in m["others"].as_array().map(|v| v.as_slice()).unwrap_or(&[]) {
